@@ -7,7 +7,7 @@ RULE = ("structure-aware corruptions (sizes, entry sizes, links, bucket counts, 
         "images containing relocation (REL/RELA), symbol + SysV/GNU hash, array, version-index, version-need and version-definition "
         "tables, of random well-formed images and small bundled examples, x 4 configurations x {eager, lazy}; after loading, every "
         "such table is queried: relocation entries with and without symbol resolution, symbol lookup by five names and two values, "
-        "arrange_local_symbols, array entries (also: array sections with entry sizes 0-24 and sizes 8-32 read with 4- and 8-byte elements at every index up to the byte size), version indices, need/definition entries, at indices 0, 1, count-1, count, count+1, 2^32-1. "
+        "arrange_local_symbols, array entries (also: array sections with entry sizes 0-24 and sizes 8-32 read with 4- and 8-byte elements at every index up to the byte size), version indices, need/definition entries (also: version sections cut to 0-32 bytes while the dynamic section still announces entries), at indices 0, 1, count-1, count, count+1, 2^32-1. "
         "Non-trivial = the load succeeded and a field was corrupted.")
 ASSUMPTIONS = ["inputs below 2 GiB"]
 KEEP_PREFIX = 2
@@ -130,6 +130,23 @@ def generate(rng, tier):
                 lines.append("arrget %d %d %d" % (k, wd, ix))
         cases.append(Case("a%d" % na, lines, {"size": len(mb), "mutated": True}))
         na += 1
+    # version-requirement / version-definition sections shorter than one record (the dynamic section still announces
+    # entries), and just long enough for the record but not for its auxiliary entry
+    nv = 0
+    for i in range(len(bs) * (3 if tier == "quick" else 12)):
+        im, b = bs[i % len(bs)]
+        vers = [k for k, s_ in enumerate(im.sections) if s_["type"] in (0x6ffffffe, 0x6ffffffd) and s_["data"] is not None]
+        if not vers:
+            continue
+        k = rng.choice(vers)
+        sites = {w: (o, wd) for o, wd, w in elfimg.field_sites(im)}
+        mb = bytearray(b)
+        e = "<" if im.enc == "lsb" else ">"
+        size = rng.choice([0, 1, 4, 8, 11, 12, 15, 16, 19, 20, 23, 24, 27, 28, 31, 32])
+        o, wd = sites["sh%d.size" % k]
+        mb[o:o + wd] = struct.pack(e + {2: "H", 4: "I", 8: "Q"}[wd], size)
+        cases.append(mk("v%d" % nv, bytes(mb), "str" if i % 2 == 0 else "file", (i // 2) % 2, True))
+        nv += 1
     # unmutated bases, archived crashers, random bytes with a valid ident
     for j, (im, b) in enumerate(bs[:16]):
         cases.append(mk("b%d" % j, b, "str", j % 2, False))
@@ -152,5 +169,6 @@ def distribution(cases):
         d["mutated"] += c.id.startswith("m"); d["archived_crashers"] += c.id.startswith("c")
         d["random_bytes"] += c.id.startswith("r"); d["unmutated"] += c.id.startswith("b")
         d["array_width_vs_entry_size"] = d.get("array_width_vs_entry_size", 0) + c.id.startswith("a")
+        d["short_version_sections"] = d.get("short_version_sections", 0) + c.id.startswith("v")
         d["lazy"] += " 1 " in c.lines[1][:12]; d["file_streams"] += c.lines[1].startswith("load file")
     return d
